@@ -505,14 +505,14 @@ O(id='NativeEnumerated_uper', props=['C01', 'C02', 'C08', 'C13'], kind='bounded'
 STUBM = 'member type is a harness stub (2-octet restartable value: RC_WMORE until complete, RC_FAIL on 0xFF); descriptor laid out by hand in the shape asn1c emits'
 SQO = dict(harness='harness/h_seq_oer.c', units=[SK + 'constr_SEQUENCE_oer.c', SK + 'constr_SEQUENCE.c'],
            link=[SK + 'constr_SEQUENCE.c', SK + 'asn_bit_data.c', SK + 'oer_support.c', SK + 'oer_decoder.c'],
-           fp_restrict=[(r'oer_decoder\)$', ['sv_oer']), (r'free_struct\)$', ['sv_free'])], trusted=[STUBM, 'stubs/memcpy16.c replaces the CBMC memcpy model'], stubs=['stubs/memcpy16.c'])
+           fp_restrict=[(r'oer_decoder\)$', ['sv_oer']), (r'free_struct\)$', ['sv_free'])], trusted=[STUBM, 'stubs/memcpy16.c, stubs/calloc96.c replace the CBMC memcpy / calloc models'], stubs=['stubs/memcpy16.c', 'stubs/calloc96.c'])
 for _e, _n, _u in ((0, 8, 11), (1, 10, 13)):
     _bd = 'SEQUENCE { a, b OPTIONAL, c%s } of stub members; every input of at most %d octets%s' % (', ..., d' if _e else '', _n, ' whose extension-addition bitmap is one octet' if _e else '')
     O(id='SEQUENCE_decode_oer.e%d' % _e, props=['C04', 'C14', 'C03'], kind='bounded', tier='experimental' if _e else 'quick', entry='h_SEQUENCE_decode_oer', functions=['SEQUENCE_decode_oer', 'SEQUENCE_free', 'asn_bit_data_new_contiguous', 'asn_get_few_bits', 'oer_open_type_get', 'oer_open_type_skip', 'oer_fetch_length'],
-      defines=['VF_EXT=%d' % _e, 'VF_N=%d' % _n], unwind=_u, cbmc=['--unwindset', 'asn_get_few_bits:3,memcpy.0:18', '--malloc-may-fail', '--malloc-fail-null', '--memory-leak-check'],
+      defines=['VF_EXT=%d' % _e, 'VF_N=%d' % _n], unwind=_u, cbmc=['--unwindset', 'asn_get_few_bits:3,memcpy.0:18,calloc.0:98', '--malloc-may-fail', '--malloc-fail-null', '--memory-leak-check'],
       bound=_bd + ' in an exact-size heap buffer; every allocation may fail', min_props=80, timeout=1500, mem_gb=30, **SQO)
     O(id='SEQUENCE_decode_oer.chunk2.e%d' % _e, props=['C05'], kind='bounded', tier='experimental', entry='h_SEQUENCE_decode_oer_chunked', functions=['SEQUENCE_decode_oer', 'asn_get_few_bits', 'asn_get_undo', 'oer_open_type_get', 'oer_open_type_skip'],
-      defines=['VF_EXT=%d' % _e, 'VF_N=%d' % _n], unwind=_u, cbmc=['--unwindset', 'asn_get_few_bits:3,memcpy.0:18', '--no-malloc-may-fail'],
+      defines=['VF_EXT=%d' % _e, 'VF_N=%d' % _n], unwind=_u, cbmc=['--unwindset', 'asn_get_few_bits:3,memcpy.0:18,calloc.0:98', '--no-malloc-may-fail'],
       bound=_bd + '; every split point k (two chunks)', min_props=80, timeout=1500, mem_gb=30, **SQO)
 
 SFO = dict(harness='harness/h_setof_oer.c', units=[SK + 'constr_SET_OF_oer.c', SK + 'constr_SET_OF.c', SK + 'asn_SET_OF.c'],
@@ -521,7 +521,7 @@ SFO = dict(harness='harness/h_setof_oer.c', units=[SK + 'constr_SET_OF_oer.c', S
 O(id='SET_OF_decode_oer.b8', props=['C04', 'C14', 'C15'], kind='bounded', entry='h_SET_OF_decode_oer', functions=['SET_OF_decode_oer', 'oer_fetch_quantity', 'asn_set_add', 'SET_OF_free', 'asn_set_empty'],
   defines=['VF_N=8'], unwind=6, cbmc=['--unwindset', 'oer_fetch_length.0:10,oer_fetch_length.1:10,oer_fetch_quantity.0:10,oer_fetch_quantity.1:10,h_SET_OF_decode_oer.0:11,h_SET_OF_decode_oer.1:11,realloc.0:66', '--malloc-may-fail', '--malloc-fail-null', '--memory-leak-check'],
   bound='SET OF stub members; every input of at most 8 octets in an exact-size heap buffer; every allocation may fail', min_props=80, timeout=900, **SFO)
-O(id='SET_OF_decode_oer.chunk2', props=['C05'], kind='bounded', tier='experimental', entry='h_SET_OF_decode_oer_chunked', functions=['SET_OF_decode_oer', 'oer_fetch_quantity', 'asn_set_add'],
+O(id='SET_OF_decode_oer.chunk2', props=['C05'], kind='bounded', tier='thorough', entry='h_SET_OF_decode_oer_chunked', functions=['SET_OF_decode_oer', 'oer_fetch_quantity', 'asn_set_add'],
   defines=['VF_N=8'], unwind=6, cbmc=['--unwindset', 'oer_fetch_length.0:10,oer_fetch_length.1:10,oer_fetch_quantity.0:10,oer_fetch_quantity.1:10,h_SET_OF_decode_oer.0:11,h_SET_OF_decode_oer.1:11,realloc.0:66', '--no-malloc-may-fail'], bound='every split point of every input of at most 8 octets (two chunks)', min_props=80, timeout=1800, mem_gb=30, **SFO)
 
 STUBT = 'member types are harness stubs (primitive TLV with the expected tag and one contents octet, stateless: RC_WMORE with consumed 0 until complete); descriptor laid out by hand in the shape asn1c emits'
@@ -544,7 +544,7 @@ SFB = dict(harness='harness/h_setof_ber.c', units=[SK + 'constr_SET_OF.c', SK + 
 O(id='SET_OF_decode_ber.b8', props=['C04', 'C14', 'C15'], kind='bounded', entry='h_SET_OF_decode_ber', functions=['SET_OF_decode_ber', 'ber_check_tags', 'ber_fetch_tag', 'ber_fetch_length', 'asn_set_add', 'SET_OF_free', 'asn_set_empty'],
   defines=['VF_N=8'], unwind=5, cbmc=['--unwindset', 'ber_fetch_tag.0:11,ber_fetch_length.0:11,h_SET_OF_decode_ber.0:11,h_SET_OF_decode_ber.1:11,realloc.0:66', '--malloc-may-fail', '--malloc-fail-null', '--memory-leak-check'],
   bound='SET OF stub members; every input of at most 8 octets in an exact-size heap buffer; every allocation may fail', min_props=80, timeout=1800, **SFB)
-O(id='SET_OF_decode_ber.chunk2', props=['C05', 'C03'], kind='bounded', tier='experimental', entry='h_SET_OF_decode_ber_chunked', functions=['SET_OF_decode_ber', 'ber_check_tags', 'ber_fetch_tag', 'ber_fetch_length', 'asn_set_add'],
+O(id='SET_OF_decode_ber.chunk2', props=['C05', 'C03'], kind='bounded', tier='thorough', entry='h_SET_OF_decode_ber_chunked', functions=['SET_OF_decode_ber', 'ber_check_tags', 'ber_fetch_tag', 'ber_fetch_length', 'asn_set_add'],
   defines=['VF_N=8'], unwind=5, cbmc=['--unwindset', 'ber_fetch_tag.0:11,ber_fetch_length.0:11,h_SET_OF_decode_ber.0:11,h_SET_OF_decode_ber.1:11,realloc.0:66', '--no-malloc-may-fail'], bound='every split point of every input of at most 8 octets (two chunks)', min_props=80, timeout=1800, mem_gb=30, **SFB)
 
 SQE = dict(harness='harness/h_seq_enc.c', units=[SK + 'constr_SEQUENCE.c', SK + 'constr_SEQUENCE_oer.c', SK + 'der_encoder.c', SK + 'oer_encoder.c'],
@@ -565,6 +565,30 @@ for _c in (0, 1, 2, 3):
     unwind=18, cbmc=['--unwindset', 'realloc.0:66,qsort.0:66', '--malloc-may-fail', '--malloc-fail-null', '--memory-leak-check'],
     bound='lists of exactly %d stub elements' % _c + '  (encodings of 3 or 4 octets, delivered in two chunks); every order, every callback failure point, every allocation may fail',
     trusted=['element type is a harness stub', 'stubs/qsort_gen.c, stubs/realloc64.c, stubs/memcpy16.c'], min_props=60, timeout=900)
+
+SQU = dict(harness='harness/h_seq_uper.c', units=[SK + 'constr_SEQUENCE.c', SK + 'per_support.c', SK + 'asn_bit_data.c'],
+           link=[SK + 'per_support.c', SK + 'asn_bit_data.c'], defines=['VF_CB_CAP=8'],
+           fp_restrict=[(r'uper_encoder\)$', ['sv_enc']), (r'uper_decoder\)$', ['sv_dec']), (r'free_struct\)$', ['sv_free']), (r'default_value_cmp\)$', ['c_default_cmp']), (r'default_value_set\)$', ['c_default_set']), (r'\.output\)$|->output\)$', ['vf_cb'])],
+           trusted=['member type is a harness stub (8 bits); descriptor laid out by hand in the shape asn1c emits'])
+O(id='SEQUENCE_decode_uper.b6', props=['C03', 'C04', 'C14'], kind='bounded', entry='h_SEQUENCE_decode_uper', functions=['SEQUENCE_decode_uper', 'SEQUENCE_free', 'per_get_few_bits', 'per_get_many_bits'],
+  unwind=10, cbmc=['--unwindset', 'asn_get_few_bits:4', '--malloc-may-fail', '--malloc-fail-null', '--memory-leak-check'],
+  bound='SEQUENCE { a, b OPTIONAL, c DEFAULT, e } of 8-bit stub members; every bit string of at most 48 bits at every bit offset 0..7; every allocation may fail', min_props=60, timeout=900, **SQU)
+O(id='SEQUENCE_uper_roundtrip', props=['C01', 'C02', 'C06'], kind='bounded', entry='h_SEQUENCE_uper_roundtrip', functions=['SEQUENCE_encode_uper', 'SEQUENCE_decode_uper', 'per_put_few_bits', 'per_put_aligned_flush'],
+  unwind=10, cbmc=['--unwindset', 'asn_get_few_bits:4,asn_put_few_bits:4', '--no-malloc-may-fail'],
+  bound='as SEQUENCE_decode_uper.b6: every value and presence combination', min_props=60, timeout=900, **SQU)
+
+CHB = dict(harness='harness/h_choice_ber.c', units=[SK + 'constr_CHOICE.c', SK + 'ber_decoder.c', SK + 'ber_tlv_tag.c', SK + 'ber_tlv_length.c'],
+           link=[SK + 'ber_decoder.c', SK + 'ber_tlv_tag.c', SK + 'ber_tlv_length.c'], stubs=['stubs/bsearch.c'],
+           fp_restrict=[(r'ber_decoder\)$', ['sv_ber']), (r'free_struct\)$', ['sv_free']), (r'compar$', ['_search4tag'])], trusted=[STUBT, 'stubs/bsearch.c'])
+for _v, _d in ((0, 'CHOICE { x [1], y [3] } untagged'), (1, '[0] EXPLICIT CHOICE { x [1], y [3] }')):
+    O(id='CHOICE_decode_ber.v%d' % _v, props=['C04', 'C14'], kind='bounded', entry='h_CHOICE_decode_ber',
+      functions=['CHOICE_decode_ber', 'ber_check_tags', 'ber_fetch_tag', 'ber_fetch_length', '_search4tag', 'CHOICE_free', '_set_present_idx', '_fetch_present_idx'],
+      defines=['VF_V=%d' % _v, 'VF_N=8'], unwind=11, cbmc=['--malloc-may-fail', '--malloc-fail-null', '--memory-leak-check'],
+      bound=_d + ' of stub alternatives; every input of at most 8 octets in an exact-size heap buffer; every allocation may fail', min_props=80, timeout=1200, **CHB)
+    O(id='CHOICE_decode_ber.chunk2.v%d' % _v, props=['C05', 'C03'], kind='bounded', entry='h_CHOICE_decode_ber_chunked',
+      functions=['CHOICE_decode_ber', 'ber_check_tags', 'ber_fetch_tag', 'ber_fetch_length', '_search4tag'],
+      defines=['VF_V=%d' % _v, 'VF_N=8'], unwind=11, cbmc=['--no-malloc-may-fail'],
+      bound=_d + ' of stub alternatives; every split point of every input of at most 8 octets (two chunks)', min_props=80, timeout=1200, **CHB)
 
 for _o in OBLIGATIONS:
     if _o.get('enforce') and _o.get('kind') in ('enforce', 'width') and _o.get('tier') == 'quick' and 'C19' not in _o['props']:
